@@ -17,7 +17,8 @@ def fam_mixed(rng, i):
     dwin = rng.choice([0, 0, 1000, 3000, 50000])
     smallest = min([w for w in (win, cwin, dwin) if w] or [10**9])
     size = rng.choice([0, 1, 300, 5000, 70000, 250000])
-    if smallest < 1000:
+    if smallest <= 5000:
+        # flow-control limited transfers advance one window per round trip: keep them short
         size = min(size, smallest * rng.choice([3, 20, 60]))
     chunk = max(rng.choice([1, 100, 1000, 20000]), size // 1500 + 1)
     p = {
@@ -36,6 +37,7 @@ def fam_mixed(rng, i):
         "read_delay_ms": rng.choice([0, 0, 0, 5]),
         "net_mtu": rng.choice([65535, 65535, 1500, 1300]),
         "deadline_ms": 120000,
+        "retry": rng.choice([0, 0, 0, 0, 1]),
     }
     if p["bidi"] + p["uni"] + p["suni"] == 0:
         p["bidi"] = 1
